@@ -148,6 +148,14 @@ func genTimeline(t *rapid.T) TLCase {
 			s.IP = rapid.IntRange(1, 2).Draw(t, "ip")
 		}
 		T += rapid.SampledFrom(gapGrid).Draw(t, "gap")
+		if s.Op == "requery" && rapid.Bool().Draw(t, "afterExpiry") {
+			// directed: place the pair just after the latest possible ban expiry of this address
+			for _, b := range bounds[s.IP] {
+				if T < b {
+					T = b
+				}
+			}
+		}
 		T = avoid(T, bounds[s.IP])
 		s.AtMs = T
 		if s.Op == "requery" {
